@@ -80,6 +80,9 @@ PROPS = {
         dict(name='scan', n=n(60000, 2000000), view='okfull', oracle='none'),
         dict(name='lay', n=n(40000, 1000000), view='full', oracle='none', laws=['same']),
         dict(name='num', n=n(40000, 1000000), oracle='none'),
+        # ONE literal per case, judged by the model's scanner (proved: nearest double / exact contents): a disagreement is a failing input
+        dict(name='numlit', n=n(12000, 300000), view='okfull', oracle='model'),
+        dict(name='strlit', n=n(12000, 300000), view='okfull', oracle='model'),
         dict(name='compile', n=n(30000, 600000), view='okfull', oracle='none'),
         dict(name='scanchars', n=n(0, 1), view='tmrange', oracle='none', laws=['scanrange'], expand='expand-scanrange', case_timeout=120.0),
     ],
@@ -217,6 +220,10 @@ PROPS = {
         dict(name='vchain:chkbool', n=n(16, 80), view='first', oracle='none', laws=['no_crash'], case_timeout=120.0),
         # JSON written by ANOTHER system (integer tokens at the i64/u64 limits, exponent spellings), deserialised in the overflow-checked build
         dict(name='jsonin', build='checked', n=n(20000, 400000), model=False, oracle='none', laws=['no_crash']),
+        # "every environment": histories of a StaticEnvironment (mixed-case registrations, removals, extend_environment) with calls and lookups in between,
+        # and whole scripts over the full standard library executed, validated and optimized
+        dict(name='env', n=n(8000, 200000), model=False, oracle='none', laws=['no_crash']),
+        dict(name='script', n=n(6000, 150000), model=False, oracle='none', laws=['no_crash'], case_timeout=20.0),
     ],
     rule='ill-formed generator: all 17 operators in unary/binary/ternary position, empty and odd names, non-finite and array literals, wrong argument counts, registered and unregistered calls; '
          'deep:* = one spine nested 1..64 levels with small random siblings. Every case runs in a worker process; compared observation: ok / err / crash / timeout class only. non-trivial = tree has an operator/call/array node',
@@ -241,6 +248,8 @@ PROPS = {
         dict(name='rep', n=n(100, 1500), model=False, oracle='none', laws=['stable'], tz='CET-1CEST,M3.5.0,M10.5.0/3'),
         dict(name='call', n=n(100, 2500), oracle='none', repeat_process=True, tz='CET-1CEST,M3.5.0,M10.5.0/3'),
         dict(name='nd', n=n(20000, 300000), oracle='none', laws=['nd']),
+        # the answer of a pure builtin must not depend on how LONG the call takes: inputs grown until one call needs about two seconds
+        dict(name='slowpure', n=n(2, 8), model=False, oracle='none', laws=['same'], case_timeout=180.0),
         dict(name='rexrep', gen='py:regexgen.py valid', n=n(6000, 100000), oracle='none', repeat_process=True, case_timeout=30.0),
         # a zone whose offset is not a whole number of hours (Newfoundland): its switches fall at hh:30 UTC
         dict(name='callnst', gen='call:date_from_rfc3339,date_from_rfc2822,date_to_rfc3339,date_to_rfc2822', n=n(1500, 20000), oracle='none', repeat_process=True, tz='NST3:30NDT,M3.2.0,M11.1.0'),
